@@ -159,7 +159,7 @@ def analyse_rules(repo: Optional[str], tier: str, rules: Optional[List[str]] = N
             roots = frontier(prog, body, config, 5)
             for r in roots:
                 tasks.append((rname, opts, r, cfg, str(prog.repo)))
-    nproc = min(16, os.cpu_count() or 1)
+    nproc = min(int(os.environ.get("VERIF_JOBS", "16")), os.cpu_count() or 1)
     if nproc > 1 and len(tasks) > 4:
         ctx = mp.get_context("fork")
         with ctx.Pool(nproc) as pool:
@@ -170,8 +170,9 @@ def analyse_rules(repo: Optional[str], tier: str, rules: Optional[List[str]] = N
     if rules is None:
         try:
             cache.parent.mkdir(exist_ok=True)
-            for old in cache.parent.glob("rulecases-*.json"):
-                old.unlink()
+            if str(prog.repo) == "/repo":
+                for old in cache.parent.glob("rulecases-*.json"):
+                    old.unlink()
             cache.write_text(json.dumps(recs))
         except Exception:
             pass
